@@ -98,6 +98,9 @@ def run(ctx):
         ctx.traces += len(steps)
         terms.append(raglib.rhistory_term(case, steps))
         keep.append((case, steps))
+        for t in raglib.iter_terms(steps[-1], case):        # iter_arrays on the final files
+            terms.append(t)
+            keep.append((case, steps))
     if keep:
         c, s = keep[len(keep) // 2]
         ctx.sample(dict(key=key_of(c), results=[x['res'][:2] for x in s],
